@@ -32,6 +32,9 @@ class OrderedSet(set):
 
 def set_successor_orders(G, orders):
     """Replace the adjacency sets of a built DiGraph by OrderedSets (orders: node -> list)."""
+    if not isinstance(getattr(G, '_next', None), dict):
+        return False        # the adjacency is no longer a private dict of sets: order cannot be owned
     for v, order in orders.items():
         assert set(order) == set(G._next[v])
         G._next[v] = OrderedSet(order)
+    return True
